@@ -947,3 +947,35 @@ def shared_config_mutation_check(ch: Any, rule: str) -> int:
     if n == 0:
         ch.ok(rule, None, 'flags mutated per connection', 'no per-connection code stores into or mutates <...>.flags.<name> (matcher verified on a built-in example)', module_rel='proxy/')
     return n
+
+
+def bound_args(prog: Program, caller: FuncInfo, call: ast.Call) -> Optional[Dict[str, ast.AST]]:
+    """The arguments of `call` by PARAMETER NAME of the callee, whether they were passed by position or by keyword.  The callee is resolved
+    through the caller's module (a module-level function, possibly imported) or, for self.<m>(...) / cls.<m>(...), through the caller's class.
+    None when the callee is not a repository function or the call uses * / ** arguments."""
+    f = call.func
+    callee: Optional[FuncInfo] = None
+    skip_first = False
+    if isinstance(f, ast.Name):
+        r = prog.resolve(caller.module, f.id)
+        callee = r[1] if r[0] == 'func' else None
+    elif isinstance(f, ast.Attribute) and isinstance(f.value, ast.Name) and f.value.id in ('self', 'cls') and caller.cls is not None:
+        callee = prog.lookup_method(caller.cls, f.attr)
+        skip_first = callee is not None and not callee.is_static
+    elif isinstance(f, ast.Attribute):
+        r = prog.resolve_expr(caller.module, f)
+        callee = r[1] if r[0] == 'func' else None
+    if callee is None or any(isinstance(a, ast.Starred) for a in call.args) or any(k.arg is None for k in call.keywords):
+        return None
+    a = getattr(callee, 'orig_node', callee.node).args
+    names = [x.arg for x in a.posonlyargs + a.args]
+    if skip_first and names:
+        names = names[1:]
+    out: Dict[str, ast.AST] = {}
+    for i, arg in enumerate(call.args):
+        if i >= len(names):
+            return None
+        out[names[i]] = arg
+    for k in call.keywords:
+        out[k.arg] = k.value        # type: ignore[index]
+    return out
